@@ -629,7 +629,8 @@ Section Calls.
     - destruct (match sr_child rln with Some nc => Nat.eqb nc oc | None => false end && negb (str_eqb (SLASH :: ro) (SLASH :: rn)));
         [apply crel_same, F|apply crel_fail, F].
     - destruct (Nat.eqb oc op || is_prefix (pi_path (sr_pi rlo) ++ [SLASH]) (pi_path (sr_pi rln))); [apply crel_fail, F|].
-      destruct (negb (is_not_exist (sr_err rln))); [apply crel_fail, F|apply Hmove, (fr_heap F)].
+      destruct (negb (is_not_exist (sr_err rln))); [apply crel_fail, F|].
+      rewrite (vr_aw V), (vr_al V). cbn [negb]. rewrite !andb_false_r. apply Hmove, (fr_heap F).
   Qed.
 
   (* ---- OpenFile and the composites built on it -------------------------------------------------- *)
